@@ -5,6 +5,7 @@ import (
 	"math/rand"
 	"os"
 	"path/filepath"
+	"sort"
 	"strings"
 	"sync"
 	"sync/atomic"
@@ -26,7 +27,8 @@ func init() {
 func checkC13(tier, replay string) int {
 	run := evid.NewRun("C13", tier, "fault_enumeration")
 	run.Rule("batched.NewHandler over a fake backend on a unix socket; pooled connections are cut at planned positions: idle, before / after processing / inside the reply (1, 24, 25, mid-value bytes) of the j-th request of a burst (j = 0..9), " +
-		"every k-th request repeatedly, and a listener outage with all connections cut; pool sizes 1, 2, 4; 1..32 concurrent callers with private keys and unique values; single commands, non-quiet (text-style) and quiet multi-key gets. " +
+		"every k-th request repeatedly, a listener outage with all connections cut, an outage longer than the reconnect loop's whole back-off schedule (16 s and more), " +
+		"multi-gets naming one key several times (same opaque, as the text protocol produces) cut between the copies, and a double cut (first attempt before any reply, retry after j replies) under a consumer that pauses after the first value; pool sizes 1, 2, 4; 1..32 concurrent callers with private keys and unique values; single commands, non-quiet (text-style) and quiet multi-key gets. " +
 		"Monitors: every call returns exactly one outcome (watchdog + state: backend listening again), outcomes and reads are judged by a per-caller possible-state model (an error is only acceptable if a cut happened while the call was in flight; " +
 		"a retried write may have applied once or twice), multi-gets must deliver exactly the requested (key, opaque) multiset unless an error is signalled, the process must stay alive, " +
 		"and once the pool has re-established all its connections a fresh round per caller must be exact. Race detector on (reports are judged by C14). " +
@@ -52,7 +54,7 @@ type c13Case struct {
 	Pool    int    `json:"pool"`
 	Callers int    `json:"callers"`
 	Mix     string `json:"mix"`   // single | mget-nonquiet | mget-quiet | mixed
-	Cut     string `json:"cut"`   // idle | before | after | mid | repeated | outage
+	Cut     string `json:"cut"`   // idle | before | after | mid | repeated | outage | long-outage (Bytes = seconds) | double
 	J       int    `json:"j"`     // burst position of the request that is cut
 	Bytes   int    `json:"bytes"` // reply bytes sent before the cut (mid)
 	Batch   int    `json:"batch_size"`
@@ -339,6 +341,23 @@ func c13RunCase(cs c13Case, seed int64) c13Verdict {
 			return g
 		}
 		switch cs.Mix {
+		case "mget-dup":
+			// the same key more than once in one get: a cut between the replies to the copies
+			if r.Intn(4) > 0 {
+				a, b := c.ns+fmt.Sprint(r.Intn(3)), c.ns+"3"
+				g := wire.Cmd{Op: "get", Opaque: r.Uint32() >> 1, NonQuiet: r.Intn(4) > 0}
+				g.NoopEnd = !g.NonQuiet
+				g.SameOpaque = g.NonQuiet && r.Intn(3) > 0 // text-style: every key with the same opaque
+				g.Keys = [][]string{{a, a}, {a, a, b}, {b, a, a}, {a, b, a}, {a, a, a}}[r.Intn(5)]
+				return g
+			}
+		case "mget-slow":
+			// three distinct keys, a consumer that pauses after the first value
+			if r.Intn(3) > 0 {
+				return wire.Cmd{Op: "get", Opaque: r.Uint32() >> 1, NonQuiet: true, Keys: []string{c.ns + "0", c.ns + "1", c.ns + "2"}, ConsumerPauseMs: 250}
+			}
+			c.id++
+			return wire.Cmd{Op: "set", Key: c.ns + fmt.Sprint(r.Intn(3)), Value: makeValue(c.id, 120), Flags: r.Uint32()}
 		case "mget-nonquiet":
 			if r.Intn(3) > 0 {
 				return mget(true)
@@ -410,9 +429,36 @@ func c13RunCase(cs c13Case, seed int64) c13Verdict {
 		}
 		return fakemc.Fault{Kind: fakemc.FaultCloseMid, Bytes: bytes}
 	}
+	isGetOp := func(op byte) bool {
+		switch op {
+		case fakemc.OpGet, fakemc.OpGetQ, fakemc.OpGetK, fakemc.OpGetKQ, fakemc.OpGetE, fakemc.OpGetEQ:
+			return true
+		}
+		return false
+	}
+	getsOnly := cs.Mix == "mget-dup" || cs.Mix == "mget-slow"
 	switch cs.Cut {
+	case "double":
+		// the first attempt of a multi-get is cut before any reply, its retry after J+1 replies
+		e.st.ArmFaultFn(func(n uint64, rq *fakemc.Req) fakemc.Fault {
+			if !isGetOp(rq.Op) {
+				return fakemc.Fault{}
+			}
+			if rq.Burst == 0 && atomic.CompareAndSwapInt32(&fired, 0, 1) {
+				e.noteCut()
+				return fakemc.Fault{Kind: fakemc.FaultCloseBefore}
+			}
+			if rq.Burst == cs.J && atomic.CompareAndSwapInt32(&fired, 1, 2) {
+				e.noteCut()
+				return fakemc.Fault{Kind: fakemc.FaultCloseAfter}
+			}
+			return fakemc.Fault{}
+		})
 	case "before", "after", "mid":
 		e.st.ArmFaultFn(func(n uint64, rq *fakemc.Req) fakemc.Fault {
+			if getsOnly && !isGetOp(rq.Op) {
+				return fakemc.Fault{}
+			}
 			if rq.Burst == cs.J && rq.Op != fakemc.OpNoop && atomic.CompareAndSwapInt32(&fired, 0, 1) {
 				e.noteCut()
 				return mkFault(cs.Cut, cs.Bytes)
@@ -431,16 +477,23 @@ func c13RunCase(cs c13Case, seed int64) c13Verdict {
 	}
 	stopAux := make(chan struct{})
 	var auxWG sync.WaitGroup
-	if cs.Cut == "idle" || cs.Cut == "outage" {
+	if cs.Cut == "idle" || cs.Cut == "outage" || cs.Cut == "long-outage" {
 		auxWG.Add(1)
 		go func() {
 			defer auxWG.Done()
 			time.Sleep(time.Duration(200+seed%7*100) * time.Microsecond)
-			if cs.Cut == "outage" {
+			if cs.Cut != "idle" {
 				e.srv.StopListening()
 			}
 			e.noteCut()
 			e.st.CutAll()
+			if cs.Cut == "long-outage" {
+				// longer than the reconnect loop's whole back-off schedule (20 attempts, about
+				// 14 s): the loop must keep trying at its slowest cadence. cs.Bytes = seconds.
+				time.Sleep(time.Duration(cs.Bytes) * time.Second)
+				e.noteCut()
+				e.srv.StartListening()
+			}
 			if cs.Cut == "outage" {
 				select {
 				case <-stopAux:
@@ -533,6 +586,19 @@ func childC13(args []string) int {
 		add("outage", 0, 0)
 		add("repeated", i%6, 0)
 	}
+	for _, cut := range []string{"before", "after", "mid"} {
+		for j := 0; j < 3; j++ {
+			for _, callers := range []int{1, 1, 2}[:run.Pick(2, 3)] {
+				cases = append(cases, c13Case{Pool: 1, Callers: callers, Mix: "mget-dup", Cut: cut, J: j, Bytes: []int{24, 25, 40}[j], Batch: 10})
+			}
+		}
+	}
+	for i := 0; i < run.Pick(4, 24); i++ {
+		cases = append(cases, c13Case{Pool: 1, Callers: 1, Mix: "mget-slow", Cut: "double", J: 1 + i%2, Batch: 10})
+	}
+	for i := 0; i < run.Pick(1, 3); i++ {
+		cases = append(cases, c13Case{Pool: 1 + i, Callers: 4, Mix: "single", Cut: "long-outage", Bytes: 16 + 5*i, Batch: 4})
+	}
 	if run.Thorough() {
 		for i := 0; i < 1500; i++ {
 			kind := []string{"before", "after", "mid", "mid", "repeated", "idle", "outage"}[rng.Intn(7)]
@@ -541,6 +607,9 @@ func childC13(args []string) int {
 	}
 	// callers need bursts at least j+1 long: make sure enough callers / batch size for large j
 	for i := range cases {
+		if cases[i].Mix == "mget-dup" || cases[i].Mix == "mget-slow" {
+			continue
+		}
 		if cases[i].J >= 2 && (cases[i].Cut == "before" || cases[i].Cut == "after" || cases[i].Cut == "mid") {
 			if cases[i].Callers < 8 {
 				cases[i].Callers = 8 + 8*rng.Intn(4)
@@ -551,6 +620,8 @@ func childC13(args []string) int {
 			cases[i].Pool = 1
 		}
 	}
+	sort.SliceStable(cases, func(i, j int) bool { return cases[i].Cut == "long-outage" && cases[j].Cut != "long-outage" })
+	handlerWatchdog = 45 * time.Second // a call may sit out a long outage
 	sem := make(chan struct{}, 12)
 	var wg sync.WaitGroup
 	for ci, cs := range cases {
